@@ -289,7 +289,11 @@ def c_find_root(interp, st, args, kw):
     arbitrary: convergence is not claimed"""
     x = st.fresh("root_x", z3.RealSort())
     st.ghost["root_x"] = x
-    if st.branch(st.fresh("derivative_vanishes", z3.BoolSort())):
+    # the division by df(x) fails exactly when the caller's derivative can vanish at an iterate: the caller's df is
+    # evaluated at an arbitrary iterate and the ZeroDivisionError path exists only if df(x) == 0 is satisfiable
+    xi = st.fresh("root_iterate", z3.RealSort())
+    d = R(interp.resolve(st, interp.call(st, args[2], [xi], {})))
+    if st.branch(d == 0):
         from pyvc.values import PyRaise
         raise PyRaise("ZeroDivisionError", "float division by zero")
     fx = interp.call(st, args[1], [x], {})
@@ -309,7 +313,7 @@ def _dt_inputs(nrest):
             st.assume(th > 0)
             acts = [st.fresh("A%d_at_rest%d" % (j, i), z3.RealSort()) for i in range(nrest)]
             for a in acts:
-                st.assume(a > 0)
+                st.assume(a >= 0)       # a product may have no activity at all (C14: never negative)
             p = VObj("ActRec", {"Thalf_hrs": th})
             prods.append((th, acts))
             ents.append([p, VList(list(acts))])
@@ -328,8 +332,8 @@ def _dt_post(st, interp, C, res):
         To = rests[k]
         return z3.Sum([acts[k] * E(interp, st, -(ln2 / th) * (t - To)) for th, acts in prods])
     if res.outcome == "raise":
-        st.oblige("post.only RuntimeError (accuracy not reached) or the root finder's ZeroDivisionError may escape",
-                  z3.BoolVal(res.exc in ("RuntimeError", "ZeroDivisionError")), kind="raises", info={"exc": res.exc, "line": res.lineno})
+        st.oblige("post.only RuntimeError (accuracy not reached) may escape",
+                  z3.BoolVal(res.exc == "RuntimeError"), kind="raises", info={"exc": res.exc, "line": res.lineno})
         return
     v = res.value
     # which index is the reference on this path?  the one whose rest time is <= all others
